@@ -289,6 +289,7 @@ pub struct Gen {
     pub next_id: usize,
     last_divisor: Option<u64>,
     pub iter_hint: usize,
+    pub stack_edge: Option<u64>, // next stack-like case: put RSP here (edges of the stack area, read-only / unmapped memory)
 }
 
 struct MemPlan {
@@ -302,7 +303,7 @@ struct MemPlan {
 
 impl Gen {
     pub fn new(seed: u64) -> Self {
-        Gen { rng: StdRng::seed_from_u64(seed), next_id: 0, last_divisor: None, iter_hint: usize::MAX }
+        Gen { rng: StdRng::seed_from_u64(seed), next_id: 0, last_divisor: None, iter_hint: usize::MAX, stack_edge: None }
     }
 
     fn pick<T: Copy>(&mut self, v: &[T]) -> T {
@@ -604,6 +605,11 @@ impl Gen {
         // stack pointer for stack / flow instructions
         if stack_like {
             pre.regs[6] = STK + 0x400 + 8 * self.rng.gen_range(0..64) + self.pick(&[0u64, 0, 0, 2, 4, 6]);
+            if let Some(e) = self.stack_edge.take() {
+                if !rsp_operand {
+                    pre.regs[6] = e;
+                }
+            }
         }
         let mut target = 0u64;
         if let Some(p) = plan.as_mut() {
@@ -1083,11 +1089,29 @@ pub fn event(c: &Case, p: &Post, src: &str) -> Value {
         Outcome::Hang => ("hang", String::new()),
     };
     let ok = p.out == Outcome::Ok;
+    // what a FAILED step left behind (registers other than RIP, flags, XMM, memory): a refused instruction produces no result
+    let mut left = Vec::new();
+    if matches!(p.out, Outcome::Err(_)) {
+        for (i, name) in crate::interp::GPRS.iter().take(16).enumerate() {
+            if p.regs[i] != c.pre.regs[i] {
+                left.push(json!(name));
+            }
+        }
+        if (p.fl & FLMASK) != (c.pre.fl & FLMASK) {
+            left.push(json!("flags"));
+        }
+        if (0..16).any(|i| p.xmm[i] != c.pre.xmm[i]) {
+            left.push(json!("xmm"));
+        }
+        if !p.mem.is_empty() {
+            left.push(json!("memory"));
+        }
+    }
     json!({
         "c": c.id, "src": src, "fam": c.family, "i": insn_desc(c),
         "pre": {"r": regs, "x": xmm, "hasx": c.touches_xmm || xchanged, "f": fl_json(c.pre.fl), "fs": b8(c.pre.fs), "gs": b8(c.pre.gs),
                 "rip": b8(c.pre.rip), "ov": c.pre.ov.iter().map(|(a, b)| json!([a, b])).collect::<Vec<_>>()},
-        "out": out, "sub": sub,
+        "out": out, "sub": sub, "left": left,
         "post": {"r": if ok { Value::Object(pr) } else { json!({}) }, "x": if ok { Value::Object(px) } else { json!({}) },
                  "f": fl_json(if ok { p.fl } else { c.pre.fl }), "rip": b8(if ok { p.rip } else { 0 }),
                  "m": if ok { p.mem.iter().map(|(a, b)| json!([a, b])).collect::<Vec<_>>() } else { vec![] },
@@ -1184,6 +1208,17 @@ pub fn gen_family(g: &mut Gen, family: &str, per_form: usize, forms: &std::colle
             };
             match family {
                 "data" | "flow" | "stack" => {
+                    if family == "stack" && n % 3 == 2 {
+                        // the slot at / across the edges of the stack area, in read-only and in unmapped memory
+                        let k = g.rng.gen_range(0..10u64) * 2;
+                        g.stack_edge = Some(match g.rng.gen_range(0..8) {
+                            0..=2 => STK + 0x1000 - k,
+                            3..=4 => STK + k,
+                            5 => RO + 0x800 + (k & 8),
+                            6 => RW1 + 0x1800,
+                            _ => STK + 0x1000 - 8 * g.rng.gen_range(0..3u64),
+                        });
+                    }
                     let use_mem = has_mem && (!has_reg || n % 2 == 1);
                     let shape = MEM_SHAPES[g.rng.gen_range(0..MEM_SHAPES.len())];
                     let seg = if g.rng.gen_bool(0.06) { Register::GS } else if g.rng.gen_bool(0.03) { Register::FS } else { Register::None };
